@@ -27,7 +27,10 @@ straight-line piece of a goroutine between two channel operations:
   writerIdleExit    MaxIdleConnDuration passed with empty queues: the writer returns nil
  reader goroutine
   readerTake        `w = <-chR`                      readerOk   `w.resp.Read(br)` succeeded: answer w with its response
-  readerFail        read error: answer w with the error, the reader returns     readerStop   stopCh observed
+  readerFail        read error — a connection error, or PipelineClient.ReadTimeout expiring before or inside the response
+                    (ErrTimeout): answer w with the error, the reader RETURNS, so the worker drops the connection; a
+                    response that arrives late can therefore never be handed to a later item (there is no "skip this
+                    item and go on reading" step: that step would break `FInv.eq`)          readerStop   stopCh observed
  worker
   drainOne          "Notify pending readers": one item of chR answered with errPipelineConnStopped (both goroutines
                     have returned)
